@@ -153,12 +153,12 @@ func (impl Implementation) Dgeqp3(m, n int, a []float64, lda int, jpvt []int, ta
 
 		if nx < sminmn {
 			// Determine if workspace is large enough for blocked code.
-			minws := 2*sn + (sn+1)*nb
+			minws := 2*n + (sn+1)*nb
 			iws = max(iws, minws)
 			if lwork < minws {
 				// Not enough workspace to use optimal nb. Reduce
 				// nb and determine the minimum value of nb.
-				nb = (lwork - 2*sn) / (sn + 1)
+				nb = (lwork - 2*n) / (sn + 1)
 				nbmin = max(2, impl.Ilaenv(inbmin, "DGEQRF", " ", sm, sn, -1, -1))
 			}
 		}
